@@ -26,6 +26,9 @@ type c16Case struct {
 	Repl    bool         `json:"repl,omitempty"`
 	Chown   bool         `json:"chown,omitempty"` // requested owner 1000:1000
 	Utime   bool         `json:"utime,omitempty"` // requested timestamp
+	// PerOption: the patterns are handed over one per WithIncludePattern/WithExcludePattern option, and the owner
+	// through WithChown, instead of through one CopyInfo
+	PerOption bool `json:"peroption,omitempty"`
 }
 
 func (c c16Case) String() string {
@@ -37,6 +40,9 @@ func (c c16Case) String() string {
 	}
 	if c.Chown || c.Utime {
 		s += fmt.Sprintf(" chown=%v utime=%v", c.Chown, c.Utime)
+	}
+	if c.PerOption {
+		s += " one-option-per-pattern"
 	}
 	return s
 }
@@ -115,7 +121,21 @@ func judgeC16(c c16Case) (string, string) {
 		}
 		return "", ""
 	}
-	if err := fscopy.Copy(context.Background(), src, "/", dst, "/", fscopy.WithCopyInfo(ci)); err != nil {
+	opts := []fscopy.Opt{fscopy.WithCopyInfo(ci)}
+	if c.PerOption {
+		ci.IncludePatterns, ci.ExcludePatterns, ci.Chown = nil, nil, nil
+		opts = []fscopy.Opt{fscopy.WithCopyInfo(ci)}
+		for _, p := range c.Include {
+			opts = append(opts, fscopy.WithIncludePattern(p))
+		}
+		for _, p := range c.Exclude {
+			opts = append(opts, fscopy.WithExcludePattern(p))
+		}
+		if c.Chown {
+			opts = append(opts, fscopy.WithChown(1000, 1000))
+		}
+	}
+	if err := fscopy.Copy(context.Background(), src, "/", dst, "/", opts...); err != nil {
 		return "copy-failed", err.Error()
 	}
 	after, err := fsmodel.Snapshot(dst)
@@ -303,6 +323,25 @@ func runC16(r *evid.Run) {
 		for _, in := range patternLists(1, c10Patterns) {
 			for _, ex := range patternLists(1, c10Patterns) {
 				cases = append(cases, c16Case{Tree: t, Include: in, Exclude: ex, Dst: "empty", Chown: true}, c16Case{Tree: t, Include: in, Exclude: ex, Dst: "empty", Chown: true, Utime: true})
+			}
+		}
+	}
+	// the per-pattern option helpers: lists (p, q, p) - the repetition matters when q has the other polarity - and
+	// all lists of length <=2, on two trees
+	for ti, t := range trees {
+		if ti >= 2 {
+			break
+		}
+		for _, p1 := range c10Patterns {
+			for _, q := range c10Patterns {
+				if p1 != q {
+					cases = append(cases, c16Case{Tree: t, Include: []string{p1, q, p1}, Dst: "empty", PerOption: true}, c16Case{Tree: t, Exclude: []string{p1, q, p1}, Dst: "empty", PerOption: true})
+				}
+			}
+		}
+		for _, in := range patternLists(1, c10Patterns) {
+			for _, ex := range patternLists(1, c10Patterns) {
+				cases = append(cases, c16Case{Tree: t, Include: in, Exclude: ex, Dst: "empty", PerOption: true, Chown: true})
 			}
 		}
 	}
